@@ -92,6 +92,8 @@ def main():
             t0 = time.time()
             p = subprocess.run(["./verif", "check", c], cwd="/verif", env=dict(os.environ, VERIF_REPO=wt), capture_output=True, text=True, timeout=7200)
             lines = [l for l in p.stdout.splitlines() if re.match(r"^(VIOLATION|OK|INCONCLUSIVE|property=)", l)]
+            if not lines:
+                lines = ["(no verdict line) stdout tail: " + p.stdout[-600:], "stderr tail: " + p.stderr[-600:]]
             meta["checks_run"][c] = {"tier": "quick", "exit": p.returncode, "wall_s": round(time.time() - t0, 1), "lines": [l[:300] for l in lines][:12]}
     finally:
         sh(["git", "-C", "/repo", "worktree", "remove", "--force", wt])
